@@ -47,6 +47,27 @@ theorem C19_evict_only_old_nonready_nonbatched (p : Pool) (cut : Nat) (tx : TxR)
 theorem C19_evict_count (p : Pool) (cut : Nat) : (evict p cut).2 = (victims p cut).length := by
   rfl
 
+/-- **nothing is older than a tolerance nothing can reach**: when every held transaction arrived after the cut (in the engine: the
+largest duration, "never", or a tolerance of centuries — `evict cut=0 tol=max|250y`; arrival groups count from 1), the age rule has no
+victim, reports 0 and leaves the pool exactly as it was -/
+theorem C19_unreachable_tolerance_evicts_nothing (p : Pool) (cut : Nat) (h : ∀ e ∈ p.arrival, cut < e.2) :
+    victims p cut = [] ∧ (evict p cut).2 = 0 ∧ (evict p cut).1.hashMap = p.hashMap ∧ (evict p cut).1.items = p.items := by
+  have hold : p.arrival.filter (fun e => decide (e.2 ≤ cut)) = [] := by
+    rw [List.filter_eq_nil_iff]
+    intro e he
+    have := h e he
+    simp only [decide_eq_true_eq]
+    omega
+  have hv : victims p cut = [] := by
+    unfold victims
+    rw [hold]; rfl
+  refine ⟨hv, ?_, ?_, ?_⟩
+  · rw [C19_evict_count, hv]; rfl
+  · unfold evict
+    simp only [hold, List.map_nil, List.filterMap_nil, List.foldl_nil]
+  · unfold evict
+    simp only [hold, List.map_nil, List.filterMap_nil, List.foldl_nil]
+
 /-- `GetTransaction` never invents content: what it returns is the item stored under the pointer
 recorded for that hash -/
 theorem C19_getTx_from_items (p : Pool) (h : String) (tx : TxR) (hg : getTx p h = some tx) :
